@@ -87,37 +87,41 @@ def unb64Std : Bytes → Bytes × Bool
 
 /-! ### UTF-8 helpers of the dependency -/
 
+def cont (b : UInt8) : Bool := b.toNat / 64 = 2
+def lo3 (x : Nat) : Nat := if x = 0xE0 then 0xA0 else 0x80
+def hi3 (x : Nat) : Nat := if x = 0xED then 0x9F else 0xBF
+def lo4 (x : Nat) : Nat := if x = 0xF0 then 0x90 else 0x80
+def hi4 (x : Nat) : Nat := if x = 0xF4 then 0x8F else 0xBF
+
+def dr2 (x : Nat) : Bytes → Nat × Nat
+  | b1 :: _ => if cont b1 then ((x % 32) * 64 + b1.toNat % 64, 2) else (0xFFFD, 1)
+  | _ => (0xFFFD, 1)
+
+def dr3 (x : Nat) : Bytes → Nat × Nat
+  | b1 :: b2 :: _ =>
+    if lo3 x ≤ b1.toNat ∧ b1.toNat ≤ hi3 x ∧ cont b2 then
+      ((x % 16) * 4096 + (b1.toNat % 64) * 64 + b2.toNat % 64, 3)
+    else (0xFFFD, 1)
+  | _ => (0xFFFD, 1)
+
+def dr4 (x : Nat) : Bytes → Nat × Nat
+  | b1 :: b2 :: b3 :: _ =>
+    if lo4 x ≤ b1.toNat ∧ b1.toNat ≤ hi4 x ∧ cont b2 ∧ cont b3 then
+      ((x % 8) * 262144 + (b1.toNat % 64) * 4096 + (b2.toNat % 64) * 64 + b3.toNat % 64, 4)
+    else (0xFFFD, 1)
+  | _ => (0xFFFD, 1)
+
 /-- `utf8.DecodeRune` on the head of a byte string: (code point, width); invalid
     input gives (U+FFFD, 1); empty gives (U+FFFD, 0) -/
 def decodeRune : Bytes → Nat × Nat
   | [] => (0xFFFD, 0)
   | b0 :: rest =>
     let x := b0.toNat
-    let cont (b : UInt8) : Bool := b.toNat / 64 = 2
     if x < 0x80 then (x, 1)
     else if x < 0xC2 then (0xFFFD, 1)
-    else if x < 0xE0 then
-      match rest with
-      | b1 :: _ => if cont b1 then ((x % 32) * 64 + b1.toNat % 64, 2) else (0xFFFD, 1)
-      | _ => (0xFFFD, 1)
-    else if x < 0xF0 then
-      match rest with
-      | b1 :: b2 :: _ =>
-        let lo := if x = 0xE0 then 0xA0 else 0x80
-        let hi := if x = 0xED then 0x9F else 0xBF
-        if lo ≤ b1.toNat ∧ b1.toNat ≤ hi ∧ cont b2 then
-          ((x % 16) * 4096 + (b1.toNat % 64) * 64 + b2.toNat % 64, 3)
-        else (0xFFFD, 1)
-      | _ => (0xFFFD, 1)
-    else if x < 0xF5 then
-      match rest with
-      | b1 :: b2 :: b3 :: _ =>
-        let lo := if x = 0xF0 then 0x90 else 0x80
-        let hi := if x = 0xF4 then 0x8F else 0xBF
-        if lo ≤ b1.toNat ∧ b1.toNat ≤ hi ∧ cont b2 ∧ cont b3 then
-          ((x % 8) * 262144 + (b1.toNat % 64) * 4096 + (b2.toNat % 64) * 64 + b3.toNat % 64, 4)
-        else (0xFFFD, 1)
-      | _ => (0xFFFD, 1)
+    else if x < 0xE0 then dr2 x rest
+    else if x < 0xF0 then dr3 x rest
+    else if x < 0xF5 then dr4 x rest
     else (0xFFFD, 1)
 
 /-- `utf8.AppendRune` -/
@@ -382,25 +386,28 @@ def decodePayloadV3Binary : Nat → Bytes → List Pkt → Decoded
 
 def hexDigit (n : Nat) : UInt8 := if n < 10 then UInt8.ofNat (48 + n) else UInt8.ofNat (87 + n)
 
+def u4esc (n : Nat) : Bytes :=
+  [92, 117, hexDigit (n / 4096 % 16), hexDigit (n / 256 % 16), hexDigit (n / 16 % 16), hexDigit (n % 16)]
+
+/-- how encoding/json (with HTML escaping) writes one ASCII byte of a string -/
+def jsonEscAscii (b : UInt8) : Bytes :=
+  if b = 34 then [92, 34] else if b = 92 then [92, 92]
+  else if b = 10 then [92, 110] else if b = 13 then [92, 114] else if b = 9 then [92, 116]
+  else if b = 8 then [92, 98] else if b = 12 then [92, 102]
+  else if b.toNat < 0x20 ∨ b = 60 ∨ b = 62 ∨ b = 38 then u4esc b.toNat
+  else [b]
+
 def jsonEscLoop : Nat → Bytes → Bytes
   | 0, _ => []
   | _ + 1, [] => []
-  | fuel + 1, bs =>
-    let b := bs.headD 0
-    let u4 (n : Nat) : Bytes := [92, 117, hexDigit (n / 4096 % 16), hexDigit (n / 256 % 16), hexDigit (n / 16 % 16), hexDigit (n % 16)]
-    if b.toNat < 0x80 then
-      let out : Bytes :=
-        if b = 34 then [92, 34] else if b = 92 then [92, 92]
-        else if b = 10 then [92, 110] else if b = 13 then [92, 114] else if b = 9 then [92, 116]
-        else if b = 8 then [92, 98] else if b = 12 then [92, 102]
-        else if b.toNat < 0x20 ∨ b = 60 ∨ b = 62 ∨ b = 38 ∨ b = 127 then u4 b.toNat
-        else [b]
-      out ++ jsonEscLoop fuel (bs.drop 1)
+  | fuel + 1, b :: rest =>
+    if b.toNat < 0x80 then jsonEscAscii b ++ jsonEscLoop fuel rest
     else
-      let (r, w) := decodeRune bs
-      if r = 0xFFFD ∧ w ≤ 1 then [92, 117, 102, 102, 102, 100] ++ jsonEscLoop fuel (bs.drop 1)
-      else if r = 0x2028 ∨ r = 0x2029 then u4 r ++ jsonEscLoop fuel (bs.drop w)
-      else bs.take w ++ jsonEscLoop fuel (bs.drop w)
+      let bs := b :: rest
+      let rw := decodeRune bs
+      if rw.1 = 0xFFFD ∧ rw.2 ≤ 1 then [92, 117, 102, 102, 102, 100] ++ jsonEscLoop fuel rest
+      else if rw.1 = 0x2028 ∨ rw.1 = 0x2029 then u4esc rw.1 ++ jsonEscLoop fuel (bs.drop rw.2)
+      else bs.take rw.2 ++ jsonEscLoop fuel (bs.drop rw.2)
 
 /-- `json.NewEncoder(w).Encode(s)` without the trailing newline -/
 def jsonString (s : Bytes) : Bytes := 34 :: jsonEscLoop (s.length + 1) s ++ [34]
@@ -426,6 +433,14 @@ def jsonpUnescape2 : Bytes → Bytes
   | [] => []
 
 def jsonpUnescape (d : Bytes) : Bytes := jsonpUnescape2 (jsonpUnescape1 d)
+
+/-- what a JSONP client does to the payload before putting it into the form
+    field (engine.io-client): `\\n` for an escaped newline, `\n` for a newline -/
+def jsonpClientEscape : Bytes → Bytes
+  | 92 :: 110 :: rest => 92 :: 92 :: 110 :: jsonpClientEscape rest
+  | 10 :: rest => 92 :: 110 :: jsonpClientEscape rest
+  | b :: rest => b :: jsonpClientEscape rest
+  | [] => []
 
 /-- `url.QueryUnescape`: '+' is a space, %XX a byte (malformed escapes: kept as they are) -/
 def hexVal (b : UInt8) : Option Nat :=
